@@ -85,7 +85,7 @@ func newWorld(r *simrun.Run, prop string) *world {
 	w.everLate = w.late
 	w.faultFree0 = w.faultFree
 	w.threshold = pick(t, []time.Duration{100 * time.Millisecond, time.Second, time.Nanosecond, 500 * time.Millisecond})
-	w.maxSusp = pick(t, []time.Duration{time.Hour, 4 * time.Second, 10 * time.Second, time.Second})
+	w.maxSusp = pick(t, []time.Duration{time.Hour, 4 * time.Second, 10 * time.Second, time.Second, 0})
 
 	w.sc = re_clock.NewSuspendableClock(w.rc, w.maxSusp, w.threshold)
 	w.ba = re_blobstore.NewSuspendingBlobAccess(&fakeCAS{w}, w.sc)
